@@ -368,7 +368,7 @@ type lifeConsensus struct {
 func (c *lifeConsensus) Ready(context.Context) <-chan struct{} { return c.ready }
 
 // soakClusterLife: structure `clusterlife` shuts the cluster down only once Ready() was released (the cluster is "in use");
-// structure `clusterearly` also lets Shutdown race ready() itself (thorough tier; finding K18b: deadlock, see notes/C18.md).
+// structure `clusterearly` also lets Shutdown race ready() itself (every tier since /repo 87856f0 repaired K18b; a revert deadlocks here).
 func soakClusterLife(secs int, name string, afterReadyOnly bool) {
 	s := newSoak(name)
 	ctx := context.Background()
